@@ -579,7 +579,7 @@ void Context::resetRuntime(const Context& shell)
   {
     MemorySlot& slot = _storage_pool[i];
     *slot.symbol = *shell._storage_pool[i].symbol;
-    slot.value = Value(*slot.symbol);
+    slot.value = std::move(Value(*slot.symbol).to_lvalue(true));
   }
   _breakCondition = false;
   _continueCondition = false;
